@@ -51,6 +51,9 @@ type Sel struct {
 	// name of the faulting argument: an input unmarshaler that fails (C04)
 	AFault string `json:"afault"`
 	AName  string `json:"aname"`
+	// tags of the executable (query-side, location FIELD) directives @dfield(tag:) applied
+	// to this field in the operation, in document order
+	QDirs []string `json:"qdirs"`
 
 	SkipSrc string `json:"-"` // "" | lit | var
 	InclSrc string `json:"-"`
@@ -179,6 +182,10 @@ func dirText(o *Op, s *Sel) string {
 		}
 		out += ")"
 	}
+	for i, t := range s.QDirs {
+		// at most two per field: gqlparser's UniqueDirectivesPerLocation ignores `repeatable`
+		out += fmt.Sprintf(" @%s(tag: %q)", []string{"dfield", "dfield2"}[i%2], t)
+	}
 	return out + s.FDir
 }
 
@@ -190,6 +197,7 @@ type GenOpts struct {
 	Skip      bool     // allow @skip/@include
 	Frags     bool     // allow named fragments
 	Avoid     []string // field names never selected
+	QDirs     bool     // executable @dfield directives on fields
 	Kind      string   // query | mutation
 	ArgFaults bool     // boomArg(b:) with failing / panicking input unmarshaler
 }
@@ -201,6 +209,7 @@ type opGen struct {
 	op    *Op
 	nfrag int
 	nlab  int
+	nq    int
 }
 
 // GenOp generates a random valid operation against schema s.
@@ -411,6 +420,12 @@ func (g *opGen) field(tn string, depth int) *Sel {
 		if !leaf {
 			s.Sels = g.selSet(fd.Name, depth-1, false)
 		}
+		if g.o.QDirs && g.r.Intn(7) == 0 {
+			for k := 1 + g.r.Intn(2); k > 0; k-- {
+				g.nq++
+				s.QDirs = append(s.QDirs, fmt.Sprintf("q%d", g.nq))
+			}
+		}
 		return g.withSkip(s)
 	}
 	return nil
@@ -422,6 +437,9 @@ func (s *Sel) MarshalJSON() ([]byte, error) {
 	a := alias(*s)
 	if a.Sels == nil {
 		a.Sels = []*Sel{}
+	}
+	if a.QDirs == nil {
+		a.QDirs = []string{}
 	}
 	return json.Marshal(&a)
 }
